@@ -29,11 +29,13 @@ Definition mount_route (t : mtable) (p : str) : nat * str :=
   else let '(fsid, point, sub) := mount_point t p in
        if str_eqb point dot then (fsid, p) else (fsid, sub).
 
-(* stripErrPathPrefix(err, name, mountSubPath) as repaired in /repo/mount.go *)
+(* stripErrPathPrefix(err, name, mountSubPath) as repaired in /repo/mount.go (twice) *)
 Definition strip_path (name sub : str) (p : str) : str :=
   if str_eqb name sub then p
   else if str_eqb name dot then (if str_eqb p sub then dot else trim_prefix p (sub ++ [slash]))
-  else if has_suffix sub (slash :: name) then trim_prefix p (trim_suffix sub name)
+  else if has_suffix sub (slash :: name) then
+    (* a Sub view: sub = base/name; an error about the base directory itself is about the view's root *)
+    (if str_eqb (p ++ [slash]) (trim_suffix sub name) then dot else trim_prefix p (trim_suffix sub name))
   else if str_eqb sub dot then (if str_eqb p dot then name else name ++ slash :: p)
   else if has_suffix name (slash :: sub) then trim_suffix name sub ++ p
   else p.
